@@ -964,6 +964,9 @@ func runPkg(p *Pkg, d *Desc, job *Job, res *Result, kinds map[string]bool) {
 			continue
 		}
 		for set := 0; set < job.Sets; set++ {
+			if len(res.Violations) > 40 {
+				break
+			}
 			V := genVals(m.In)
 			scenario := []string{"call", "call", "error", "more", "oneway", "upgrade"}[set%6]
 			if scenario == "error" && len(errs) == 0 {
@@ -1093,7 +1096,7 @@ func runPkg(p *Pkg, d *Desc, job *Job, res *Result, kinds map[string]bool) {
 			}
 			// give the handler a moment to finish (it runs in the service's goroutine)
 			var o *Observed
-			for try := 0; try < 50000; try++ {
+			for try := 0; try < 15000; try++ {
 				h.mu.Lock()
 				if len(h.obs) > 0 {
 					o = h.obs[0]
